@@ -44,7 +44,7 @@ def cases(tier):
         d = finish(a)
         h = explore.sha(d)
         if h not in seen:
-            seen.add(h); out.append(dict(d=d, dev=dev))
+            seen.add(h); out.append(dict(d=d, dev=dev, _timeout=(400 if tier == "thorough" else 90)))
     for a, dev in explore.deviations(DIMS, k, forbid=forbid):
         add(a, dev)
     # full degree x scheme x M x grid-class sub-product on the ODE and DAE base models
